@@ -204,6 +204,32 @@ pub fn glob_match(pattern: &str, path: &str) -> bool {
     })
 }
 
+fn dir_exists(world: &World, dir: &str) -> bool {
+    if dir == "/" || dir.is_empty() {
+        return true;
+    }
+    let prefix = format!("{}/", dir);
+    world.files.iter().any(|f| f.path.starts_with(&prefix)) || world.extra.keys().any(|k| k.starts_with(&prefix))
+}
+
+/// Every directory that a `..` component steps out of exists.
+fn parents_exist(world: &World, raw: &str) -> bool {
+    let mut stack: Vec<&str> = Vec::new();
+    for c in raw.split('/') {
+        match c {
+            "" | "." => {}
+            ".." => {
+                if !dir_exists(world, &format!("/{}", stack.join("/"))) {
+                    return false;
+                }
+                stack.pop();
+            }
+            _ => stack.push(c),
+        }
+    }
+    true
+}
+
 /// Flattens the include tree in the order the statement of C11 prescribes.
 pub fn flatten(world: &World) -> (Vec<FlatRef>, Option<LoadFail>) {
     let mut out = Vec::new();
@@ -228,11 +254,17 @@ fn flatten_file(
     for (i, it) in f.items.iter().enumerate() {
         match &it.entry {
             Entry::Include(pat) => {
-                let target = if pat.starts_with('/') {
-                    normalize(pat)
+                let raw = if pat.starts_with('/') {
+                    pat.clone()
                 } else {
-                    normalize(&format!("{}/{}", dirname(&f.path), pat))
+                    format!("{}/{}", dirname(&f.path), pat)
                 };
+                // a real file system resolves `x/..` only if `x` exists as a directory;
+                // the statement does not discuss paths through missing directories.
+                if !parents_exist(world, &raw) {
+                    return Err(LoadFail::Foreign { path: raw });
+                }
+                let target = normalize(&raw);
                 let mut matches: Vec<String> = Vec::new();
                 for (k, g) in world.files.iter().enumerate() {
                     let _ = k;
